@@ -11,6 +11,9 @@ from axolotl.protocol.whispermessage import WhisperMessage
 from axolotl.state.prekeybundle import PreKeyBundle
 from axolotl.untrustedidentityexception import UntrustedIdentityException
 from axolotl.invalidmessageexception import InvalidMessageException
+from axolotl.invalidversionexception import InvalidVersionException
+from axolotl.legacymessageexception import LegacyMessageException
+from google.protobuf.message import DecodeError
 from axolotl.duplicatemessagexception import DuplicateMessageException
 from axolotl.invalidkeyidexception import InvalidKeyIdException
 from axolotl.nosessionexception import NoSessionException
@@ -169,15 +172,16 @@ class AxolotlManager(object):
 
     def decrypt_pkmsg(self, senderid, data, unpad):
         logger.debug("decrypt_pkmsg(senderid=%s, data=(omitted), unpad=%s)" % (senderid, unpad))
-        pkmsg = PreKeyWhisperMessage(serialized=data)
         try:
+            # parsing is part of what can fail for a damaged message
+            pkmsg = PreKeyWhisperMessage(serialized=data)
             plaintext = self._get_session_cipher(senderid).decryptPkmsg(pkmsg)
             return self._unpad(plaintext) if unpad else plaintext
         except NoSessionException:
             raise exceptions.NoSessionException()
         except InvalidKeyIdException:
             raise exceptions.InvalidKeyIdException()
-        except InvalidMessageException:
+        except (InvalidMessageException, InvalidVersionException, LegacyMessageException, DecodeError):
             raise exceptions.InvalidMessageException()
         except DuplicateMessageException:
             raise exceptions.DuplicateMessageException()
@@ -185,8 +189,9 @@ class AxolotlManager(object):
 
     def decrypt_msg(self, senderid, data, unpad):
         logger.debug("decrypt_msg(senderid=%s, data=[omitted], unpad=%s)" % (senderid, unpad))
-        msg = WhisperMessage(serialized=data)
         try:
+            # parsing is part of what can fail for a damaged message
+            msg = WhisperMessage(serialized=data)
             plaintext = self._get_session_cipher(senderid).decryptMsg(msg)
 
             return self._unpad(plaintext) if unpad else plaintext
@@ -194,7 +199,7 @@ class AxolotlManager(object):
             raise exceptions.NoSessionException()
         except InvalidKeyIdException:
             raise exceptions.InvalidKeyIdException()
-        except InvalidMessageException:
+        except (InvalidMessageException, InvalidVersionException, LegacyMessageException, DecodeError):
             raise exceptions.InvalidMessageException()
         except DuplicateMessageException:
             raise exceptions.DuplicateMessageException()
